@@ -54,6 +54,21 @@ CLAIMED = {
         "(config_setting_t.length is an unsigned int).",
    technique="Coq proof (induction over spelled paths against the byte-level walker) + correspondence",
    ref="5 (C06)"),
+ "C16": dict(
+   text="Coq theorems (Properties_C16.v, closed under the global context): destroy_log (the model of "
+        "__config_setting_destroy) lists children first, then the setting's own hook; every API step - additions, "
+        "overrides, removals by path/index, assignments, clear, destroy, failing calls - conserves hooks as a "
+        "multiset equation: hooks before = hooks still in the tree + destructor calls of that very step (Permutation), "
+        "lifted by induction to every history and to destroy (everything released); with distinct hooks the calls are "
+        "duplicate-free and disjoint from live settings; without a destructor no call; a read releases exactly the "
+        "old tree. Tied to /repo by random histories with hooks on every kind of setting: destructor log compared "
+        "call by call with the model and, independently, with the hooks that left the dumped real tree. The string "
+        "lifetime clause is pointer-level: stored strings are values in the model (copy by construction), and the "
+        "harness re-reads every handed-out pointer after every later call under ASan while a live setting holds it.",
+   note="String lifetime is decided by the correspondence harness only (the functional model has no addresses); "
+        "hooks overwritten by config_setting_set_hook are not passed to the destructor (as documented), stated in C16_set_hook.",
+   technique="Coq proof (multiset conservation invariant by induction over histories) + correspondence",
+   ref="5 (C16)"),
 }
 
 REASON_PENDING = "not decided in the committed state of this round: the Coq theorem for this property is not yet in the tree, and a property is never claimed on testing alone (DESIGN.md section 11)"
